@@ -141,11 +141,12 @@ func init() {
 			w.rLatPm = []int{100, 500, 1000}[t.F(3)]
 			w.rLatMs = []int{4, 60, 250}[t.F(3)]
 		}
-		opts := simrt.Opts{MaxSteps: 600000, IdleLimit: time.Hour, FreeLimit: 10 * time.Minute}
+		opts := simrt.Opts{MaxSteps: 600000, IdleLimit: time.Hour, FreeLimit: 24 * time.Hour}
 		if t.FBool(1, 3) {
 			opts.YieldLatPermille = []int{5, 40, 200}[t.F(3)]
 			opts.YieldLatMaxMs = []int{3, 40, 150}[t.F(3)]
 		}
+		opts.Knobs = sc.knobs()
 		s := rc.NewSim(opts)
 		w.sim = s
 		if rc.Mode == simrt.ModeFree {
